@@ -103,6 +103,22 @@ CLAIMED = {
          "n=4/5; the converse (parol reports a conflict although the oracle says LALR(1)) is counted, not required.",
          "TLC LR(1)-merge oracle for 'is LALR(1)', language vectors for soundness of resolved tables",
          "DESIGN.md §6 C04"),
+ "C31": ("model_checking",
+         "Recovery.tla enumerates all pairs of token sequences (3 symbols, length <=4; thorough 4 symbols, <=5) with the minimal edit "
+         "distance (metric laws model-checked); the real levenshtein_distance must report it; Trace_Recovery.tla validates every recorded "
+         "script: applied by adjust_token_stream's consumption rule it yields the expected sequence and its non-keep length is the distance.",
+         "the function is reached through the cfg(parol_verif) re-export parol_runtime::verif.",
+         "TLC-enumerated pairs + TLA+ DP oracle; TLC trace validation of every script",
+         "DESIGN.md §6 C31"),
+ "C32": ("model_checking",
+         "KTuple.tla is a reference model of bounded terminal strings (epsilon, end-of-input closing, truncation at k); TLC enumerates all "
+         "operation sequences of length 4 (5) over 2 (3) registers for several k and model-checks algebraic laws; the harness replays "
+         "each sequence on the packed Terminals/TerminalString for max_terminal_index at every bit-width boundary and compares iteration, "
+         "get, len, epsilon/empty/completeness tests after every step and Eq/Ord at the end.",
+         "ordering is required to be a total order determined by the denoted sequence, not a particular one; KTuples (sets) are exercised "
+         "through C05/C06.",
+         "TLC-enumerated operation sequences with abstract results replayed on the real representation",
+         "DESIGN.md §6 C32"),
 }
 
 NOT_YET = "check not built yet in this round (see DESIGN.md §11.2 build order); will be claimed once its quick check passes on the unchanged tree"
